@@ -2,7 +2,7 @@
    list, prod, unit, sumbool map to OCaml's; Z/positive/N/nat stay inductive.
    No Extract Constant. *)
 From Coq Require Import Extraction ExtrOcamlBasic ZArith List.
-From Corro Require Import Lib.Ivl Model.Chunk Model.Book Model.SeqRows Model.BookOps Model.Needs Model.Members Lib.Utf8 Model.Pack Model.Wire Model.WireDescs Model.Ingest Model.IngestSched Model.ClusterGate Model.Partial Model.Serve Model.LocalTx Model.Crdt Model.CrdtSpec Model.Ivm Model.Updates Model.SchemaDiff Model.Authz Gen.Router Model.Catchup Gen.CatchupCfg Model.SubLife Gen.SubLifeCfg Model.Backup Model.RestoreLock Gen.RestoreLocks Model.WritePool.
+From Corro Require Import Gen.Consts Lib.Ivl Model.Chunk Model.Book Model.SeqRows Model.BookOps Model.Needs Model.Members Lib.Utf8 Model.Pack Model.Wire Model.WireDescs Model.Ingest Model.IngestSched Model.ClusterGate Model.Partial Model.Serve Model.LocalTx Model.Crdt Model.CrdtSpec Model.Ivm Model.Updates Model.SchemaDiff Model.Authz Gen.Router Model.Catchup Gen.CatchupCfg Model.SubLife Gen.SubLifeCfg Model.Backup Model.RestoreLock Gen.RestoreLocks Model.WritePool.
 Extraction Language OCaml.
 Extraction "model.ml"
   Z.add Z.mul Z.sub Z.opp Z.div_eucl Z.of_nat Z.to_nat Z.compare Z.eqb Z.ltb Z.leb
@@ -15,7 +15,7 @@ Extraction "model.ml"
   BookOps.bstep BookOps.bruns BookOps.bstate_init BookOps.reload BookOps.adv_exact_b BookOps.state_ok BookOps.bv_eqb
   BookOps.seqrows_flat
   Needs.compute_available_needs Needs.check_needs
-  Members.mstep Members.members_empty Members.ring0 Members.spec_step Members.op_allowed Members.view_matches Members.add_member Members.remove_member Members.ba_inv_b Members.zlist_eqb
+  Members.mstep Members.members_empty Members.ring0 Members.spec_step Members.op_allowed Members.view_matches Members.add_member Members.remove_member Members.ba_inv_b Members.zlist_eqb Members.bucket_of Members.sumz Members.mget Consts.ring_buckets
   Utf8.utf8_valid Pack.pack Pack.unpack Pack.sval_ok Wire.enc Wire.dec Wire.wt Wire.read_from_buffer Wire.desc_ok WireDescs.desc_by_id
   Ingest.known Ingest.seen_inv_b Ingest.istep Ingest.offer IngestSched.sstep IngestSched.sst_init
   ClusterGate.uni_deliver ClusterGate.serve_first ClusterGate.sync_candidates ClusterGate.bcast_allowed ClusterGate.bcast_priority
